@@ -234,6 +234,19 @@ func vpHttpServeTLS(srv *http.Server, l net.Listener, certFile, keyFile string) 
 	return nil
 }
 
+// kcp.ServeConn (used by PacketServer.Startup's default listener factory): records the cipher, returns a listener
+// whose Accept blocks
+func vpKcpServeConn(block kcp.BlockCrypt, dataShards, parityShards int, conn net.PacketConn) (*kcp.Listener, error) {
+	vpS.blocks = append(vpS.blocks, block)
+	return new(kcp.Listener), nil
+}
+func vpKcpAccept(l *kcp.Listener) (net.Conn, error) {
+	<-make(chan struct{})
+	return nil, vpErrClosed
+}
+func vpKcpClose(l *kcp.Listener) error  { return nil }
+func vpKcpAddr(l *kcp.Listener) net.Addr { return vpAddr{"kcp"} }
+
 // ---- crypto/tls ----
 
 func vpFindTlsRec(c *tls.Conn) *vpTlsRec {
